@@ -1,4 +1,4 @@
-"""Standalone reproductions of the C06 findings (no /verif imports; run: /venv/bin/python findings_proposed/C06_repro.py).
+"""Standalone reproductions of the C06 findings (no /verif imports; run: /venv/bin/python detection/C06_repro.py).
 
 Each block builds a tiny schema, makes the case the way Schemathesis itself makes it (the real strategy helpers / the real
 coverage generator / the real example strategies), asks the real transport for the request and prints what a server would see.
@@ -58,16 +58,6 @@ show("KF-C06-1 path value 'a b'", wire(o.Case(path_parameters=generated(o, "path
 # KF-C06-2  '.' / '..' are escaped as %2E by quote_all, requests un-escapes unreserved characters again
 show("KF-C06-2 path value '.'", wire(o.Case(path_parameters=generated(o, "path", {"p": "."})))[0], "http://h/t/%2E (no raw dot segment)")
 show("KF-C06-2 path value '..'", wire(o.Case(path_parameters=generated(o, "path", {"p": ".."})))[0], "http://h/t/%2E%2E")
-
-# KF-C06-3  booleans below the top level / in headers, cookies and forms keep Python's spelling
-o = op3({"name": "p", "in": "query", "required": True, "schema": ARRB})
-show("KF-C06-3 query array [True]", wire(o.Case(query=generated(o, "query", {"p": [True]})))[0], "http://h/t?p=true")
-o = op3({"name": "X-P", "in": "header", "required": True, "schema": {"type": "boolean"}})
-show("KF-C06-3 header boolean True", wire(o.Case(headers=generated(o, "header", {"X-P": True})))[1], "{'X-P': 'true'}")
-o = op3({"name": "p", "in": "cookie", "required": True, "schema": {"type": "boolean"}})
-show("KF-C06-3 cookie boolean False", wire(o.Case(cookies=generated(o, "cookie", {"p": False})))[1], "{'Cookie': 'p=false'}")
-o = op3(None, method="post", requestBody={"required": True, "content": {"application/x-www-form-urlencoded": {"schema": {"type": "object", "properties": {"b": {"type": "boolean"}}}}}})
-show("KF-C06-3 form body {'b': False}", wire(o.Case(body={"b": False}, media_type="application/x-www-form-urlencoded"))[2], "b=false")
 
 # KF-C06-4  path arrays/objects without an explicit `style` (default: simple) are formatted with Python's str()
 o = op3({"name": "p", "in": "path", "required": True, "schema": ARR}, "/t/{p}")
